@@ -47,6 +47,7 @@ Record fixes := {
   fx_insert_gate : bool   (* SetWorkerEnter refuses a NEW address when len(workers) >= Max *)
 }.
 Definition no_fixes : fixes := {| fx_insert_gate := false |}.
+Definition insert_gate_fix : fixes := {| fx_insert_gate := true |}.
 
 (* Supervisor.min() *)
 Definition min_eff (c : cfg) : N := if (c_max c <? c_min c)%N then c_max c else c_min c.
